@@ -27,6 +27,9 @@ EXPLANATION = (
 EXPLANATION += (
     ' ADDED: Arrays assembled block by block (general loaders) are checked too: decoded block (i, x, z) of the file lands at array block (i, x, z), blocks fill the array, and crops of such arrays - and crops of crops (get_trace on the chunk returned by read_subvolume) - select the requested window. C02.5 also decides the translation itself: coord_to_index returns only ordinals found by exact equality with an axis entry (or len(axis) under the include-stop flag and an exact test), never through a tolerance / nearest-neighbour construct, and ends in IndexError otherwise.'
 )
+EXPLANATION += (
+    ' C02.6 also: in every three-element cube subscript of the read-side modules each axis-tagged element stands in the position of its axis; the xarray backend (basic indexing support) post-indexes the bounding-box window by the slice steps and drops integer-indexed axes. C02.7 also: each start of a diagonal belongs to the half of the family its enclosing test selects, and the two diagonal-length functions return exactly min of the cell bounds derived from those index polynomials - every path of each function, under its branch conditions, the id guard and the order of n_il and n_xl, compared by Fourier-Motzkin elimination over (n_il, n_xl, id), with a concrete witness reported when the two differ only on part of a case.'
+)
 ASSUMPTIONS = [
     'a fixed-rate ZFP stream of an array stores its 4^d cells in C order, rate*4^d bits each (decoding an assembly of '
     'units equals the cell-by-cell decode)',
